@@ -183,3 +183,5 @@ func init() {
 		return runMismatchImpl(c.Work, kind, o, roots, blksFromVal(l[4]), tagOf(l[5]), wOptsFromVal(l[6]), cidsFromVal(l[7]))
 	})
 }
+
+// ================================ kind "crash" (C06) ==============================================
